@@ -154,7 +154,7 @@ def orName : Option Name → Option Name → Option Name
   | some n, _ => some n
   | none, n2 => n2
 
-/-- the partial-vs-partial arm of `intersect_pair` (notes/C02-fixes/15): the partial type with the
+/-- the partial-vs-partial arm of `intersect_pair` (fix 02d463a): the partial type with the
 fields of both, the left operand's first, then the right operand's new ones. -/
 def meetPart (rec : Table → Nat → Nat → TRes) (T : Table) (never : Nat) (n1 : Option Name)
     (fs1 : List (Name × Nat)) (n2 : Option Name) (fs2 : List (Name × Nat)) : TRes :=
@@ -194,8 +194,8 @@ def intersectPair (vr : Variant) (rf : Nat) (rec : Table → Nat → Nat → TRe
       | .reference, .reference => some (T, a)
       | .tuple id1, .tuple id2 => meetTuple vr rec T never id1 id2
       | .part n1 fs1, .part n2 fs2 =>
-        if vr.partialIntersectExact then meetPart rec T never n1 fs1 n2 fs2
-        else meetFallback rf T never a b
+        if vr.partialIntersectKeepsLeft then meetFallback rf T never a b
+        else meetPart rec T never n1 fs1 n2 fs2
       | _, _ => meetFallback rf T never a b
     | _, _ => some (T, never)
 
